@@ -250,6 +250,47 @@ func c20DWT(c *hx.Ctx) {
 			c20Dwt1D(c, x, false, corr, true, "exhaustive")
 		}
 	}
+	// the inverse on ARBITRARY short inputs (not only forward outputs): every width-1/2/3 window over -9..9, both
+	// parities — the width==1 (`/= 2`) and width==2 special cases of the odd-origin inverse see negative even and
+	// negative odd coefficients
+	c20DwtInv := func(f []int32, even bool) {
+		b := append([]int32{}, f...)
+		p, _ := hx.Guard(func() { wavelet.Inverse53_1DWithParity(b, even) })
+		if p {
+			c.Case(fmt.Sprintf("dwt-inv1 %d %s", c20B(even), c20Ints(f)), "panic")
+		} else {
+			c.Case(fmt.Sprintf("dwt-inv1 %d %s", c20B(even), c20Ints(f)), "ok "+c20Ints(b))
+		}
+		c.Count("dwt1d:inverse-direct")
+	}
+	for L := 1; L <= 3; L++ {
+		total := 1
+		for k := 0; k < L; k++ {
+			total *= 19
+		}
+		for v := 0; v < total; v++ {
+			f := make([]int32, L)
+			t := v
+			for k := 0; k < L; k++ {
+				f[k] = int32(t%19) - 9
+				t /= 19
+			}
+			c20DwtInv(f, true)
+			c20DwtInv(f, false)
+		}
+	}
+	for k := 0; k < 400; k++ { // large magnitudes, all sign/parity combinations of a 2-wide window
+		sh := uint(c.R.Pick([]int{4, 12, 20, 28, 30}))
+		f := []int32{int32(c.R.Range(-(1 << sh), 1<<sh)), int32(c.R.Range(-(1 << sh), 1<<sh))}
+		if k%2 == 0 {
+			f[1] = -2 * int32(c.R.Range(1, 1<<(sh-1))) // negative even detail
+		}
+		c20DwtInv(f, false)
+		c20DwtInv(f, true)
+		// and the round trip of a 2-wide window at odd origin whose detail coefficient comes out negative
+		x := []int32{f[0], f[0] + f[1]}
+		c20Dwt1D(c, x, false, true, true, "width2-odd")
+	}
 	// empty slice: even=true returns, even=false panics in Go (model: panic) — correspondence only
 	c20Dwt1D(c, []int32{}, true, true, false, "empty")
 	c20Dwt1D(c, []int32{}, false, true, false, "empty")
@@ -482,6 +523,33 @@ func c20MqScript(c *hx.Ctx, nctx int, ops []int) {
 	c.Count("mq:script")
 }
 
+// c20MqFamily is a deterministic family of decision sequences with long MPS runs (they drive the code register
+// high, so that carries reach the byte after a 0xFF): seed -> (contexts, decisions).
+func c20MqFamily(seed uint64) (int, []c20Dec) {
+	s := seed*6364136223846793005 + 1442695040888963407
+	next := func(n uint64) uint64 {
+		s = s*6364136223846793005 + 1442695040888963407
+		return (s >> 33) % n
+	}
+	L := 30 + int(next(200))
+	nctx := 1 + int(next(3))
+	flip := []uint64{2, 4, 8, 16, 33}[next(5)]
+	mps := make([]int, nctx)
+	ds := make([]c20Dec, 0, L)
+	for i := 0; i < L; i++ {
+		cx := int(next(uint64(nctx)))
+		bit := mps[cx]
+		if next(100) < flip {
+			bit ^= 1
+			if next(3) == 0 {
+				mps[cx] ^= 1
+			}
+		}
+		ds = append(ds, c20Dec{bit: bit, cx: cx})
+	}
+	return nctx, ds
+}
+
 func c20MQ(c *hx.Ctx) {
 	// 1. all sequences of (bit, context) over 2 contexts
 	maxL, corrL := 10, 6
@@ -678,6 +746,80 @@ func c20MQ(c *hx.Ctx) {
 		c.Case(fmt.Sprintf("mq-dec 3 %s %s", hx.Hex(data), c20IntsI(cxs)), out)
 		c.Count("mq:dec-arbitrary")
 	}
+	// hand-made byte strings with 0xFF followed by EVERY value 0x00..0xFF at several positions (marker threshold
+	// 0x8F of bytein and of RawDecode), also 0xFF as the last byte and 0xFF 0xFF
+	for _, pos := range []int{0, 1, 2, 3, 5, 8} {
+		for v := 0; v < 256; v++ {
+			data := make([]byte, pos+2+c.R.Intn(3))
+			for i := range data {
+				data[i] = byte(c.R.Pick([]int{0x00, 0x37, 0x7F, 0x80, 0xC4, 0xFE}))
+			}
+			data[pos], data[pos+1] = 0xFF, byte(v)
+			nd := 8*len(data) + 40
+			cxs := make([]int, nd)
+			for i := range cxs {
+				cxs[i] = (i*7 + v) % 3
+			}
+			bits, pd := c20MqDecode(3, data, cxs)
+			out := "ok " + c20IntsI(bits)
+			if pd {
+				out = "panic"
+			}
+			c.Case(fmt.Sprintf("mq-dec 3 %s %s", hx.Hex(data), c20IntsI(cxs)), out)
+			var got []int
+			pr, _ := hx.Guard(func() {
+				d := mqc.NewRawDecoder(data)
+				for i := 0; i < nd; i++ {
+					got = append(got, d.RawDecode())
+				}
+			})
+			out = "ok " + c20IntsI(got)
+			if pr {
+				out = "panic"
+			}
+			c.Case(fmt.Sprintf("mq-raw %s %d", hx.Hex(data), nd), out)
+			c.Count("mq:ff-then-every-byte")
+		}
+	}
+	// streams in which the ENCODER emits 0xFF followed by 0x8E / 0x8F (the largest byte that may follow 0xFF): about
+	// one random sequence in 10^6 does; anchors found by an offline sweep of the deterministic family c20MqFamily,
+	// plus an online sweep of that family that round-trips every sequence whose output has 0xFF followed by >= 0x88
+	ffMax := 0
+	scan := func(seed uint64, always bool) {
+		nctx, ds := c20MqFamily(seed)
+		enc, p := c20MqEncode(nctx, ds)
+		if p {
+			c20MqOne(c, nctx, ds, true, "ff8f-family")
+			return
+		}
+		hi := 0
+		for i := 0; i+1 < len(enc); i++ {
+			if enc[i] == 0xFF && int(enc[i+1]) > hi {
+				hi = int(enc[i+1])
+			}
+		}
+		if hi > ffMax {
+			ffMax = hi
+		}
+		if hi >= 0x8E {
+			c.Count(fmt.Sprintf("mq:encoder-emits-ff%02x", hi))
+		}
+		if always || hi >= 0x88 {
+			c20MqOne(c, nctx, ds, true, "ff8f-family")
+		}
+	}
+	for _, seed := range []uint64{1704625, 2001221, 2359064, 3266577, 12496550, 12867925, // FF 8F
+		24928, 165686, 707455, 1129945, 1825335, 1846639} { // FF 8E
+		scan(seed, true)
+	}
+	nFam := uint64(150000)
+	if c.Thorough() {
+		nFam = 2500000
+	}
+	for seed := uint64(0); seed < nFam; seed++ {
+		scan(seed+uint64(c.Seed)*1000003, false)
+	}
+	c.Count(fmt.Sprintf("mq:max-byte-after-ff=%02x", ffMax))
 	// 4. raw (bypass) segments: decode what BypassEncode wrote
 	for k := 0; k < n/2; k++ {
 		pre := c.R.Range(0, 60)
@@ -883,6 +1025,56 @@ func c20T1One(c *hx.Ctx, w, h, orient, style int, x []int32, tag string) {
 	} else if !c20Eq(got2, x) {
 		c.Fail(hx.Failure{Class: cls("roundtrip"), What: "DecodeWithBitplane(Encode(block)) != block (all passes)", Input: in})
 	}
+	// (C) truncated pass count (C20.t1_truncated): every coefficient comes back truncated below the plane of the
+	// last coded pass or the one above it
+	if numPasses < 2 {
+		return
+	}
+	np := 1 + c.R.Intn(numPasses-1)
+	c.Count("t1:truncated")
+	var data3 []byte
+	var got3 []int32
+	p3, msg3 := hx.Guard(func() {
+		e := t1.NewT1Encoder(w, h, style)
+		e.SetOrientation(orient)
+		data3, err = e.Encode(x, np, 0)
+		if err != nil {
+			return
+		}
+		d := t1.NewT1Decoder(w, h, style)
+		d.SetOrientation(orient)
+		derr = d.DecodeWithBitplane(data3, np, mb, 0)
+		got3 = d.GetData()
+	})
+	in3 := map[string]any{"width": w, "height": h, "orientation": orient, "style": style, "numPasses": np, "of": numPasses, "block": in["block"], "seed": c.Seed}
+	if p3 || err != nil || derr != nil {
+		c.Fail(hx.Failure{Class: cls("truncated-fail"), What: fmt.Sprintf("Encode/DecodeWithBitplane with a truncated pass count failed: %v %v %s", err, derr, msg3[:min(len(msg3), 200)]), Input: in3})
+		return
+	}
+	pl := mb - (np+1)/3
+	for i, v := range x {
+		a := int64(v)
+		if a < 0 {
+			a = -a
+		}
+		ok := false
+		for _, l := range []int{pl, pl + 1} {
+			if np%3 == 1 && l != pl {
+				continue
+			}
+			t := (a >> uint(l)) << uint(l)
+			if v < 0 {
+				t = -t
+			}
+			if int64(got3[i]) == t {
+				ok = true
+			}
+		}
+		if !ok {
+			c.Fail(hx.Failure{Class: cls("truncated"), What: fmt.Sprintf("sample %d: %d decoded as %d, not a truncation below plane %d or %d", i, v, got3[i], pl, pl+1), Input: in3})
+			return
+		}
+	}
 }
 
 // c20T1Corr: correspondence of the code-shaped T1 model (style 0): encoder bytes and decoder coefficients.
@@ -1044,6 +1236,7 @@ func c20T1(c *hx.Ctx) {
 	}
 	for style := 0; style < 64; style += 2 { // every modelled style at least once, all passes
 		x := c20T1Block(c.R, 5, 6, 2)
+		x[c.R.Intn(len(x))] = int32(c.R.Range(1, 200))
 		c20T1Corr(c, 5, 6, style/2%4, style, x, 3*(c20MaxBitplane(x)+1)-2, "all-styles")
 	}
 	// layered API, all 64 styles
